@@ -69,8 +69,18 @@ def returned_objects(ctx, rule='accessor-returns-iterate-block'):
     for r in rets:
         at |= atoms(sym(acc, r['value']))
     ok = ('F', X) in at
-    ctx.check(ok, rule, 'LOBPCGSolver::eigenvectors', acc.qname,
-              'returns the n-row iterate block %s' % X if ok else
+    # ... and returns it UNCHANGED: the iterate is B-orthonormal and belongs to the values and residuals reported next to it; any
+    # operation on it (re-scaling, re-normalising in the 2-norm, a product) hands out something the other accessors do not describe
+    forms = [sym(acc, r['value']) for r in rets]
+
+    def plain(t):
+        while isinstance(t, tuple) and t[0] in ('ctor', 'cast', 'eval') and len(t) >= 2:
+            t = t[-1]
+        return t == ('F', X)
+    changed = [show(t) for t in forms if not plain(t)]
+    ctx.check(ok and not changed, rule, 'LOBPCGSolver::eigenvectors', acc.qname,
+              'returns the n-row iterate block %s as it is' % X if ok and not changed else
+              ('returns %s: the iterate block is modified on the way out (it is B-orthonormal as stored; values and residuals describe the stored block)' % changed) if ok else
               'returns %s, which is not derived from the iterate block %s (a k-column coefficient matrix has the wrong shape and is not an eigenvector of the pencil)' % (sorted(show(a) for a in at), X))
     # eigenvalues(): field assigned from geigs.eigenvalues(); residuals(): field assigned AX - val*BX
     ev = M.get('eigenvalues')
